@@ -12,7 +12,7 @@ import (
 func init() { Registry["C18"] = checkC18 }
 
 func checkC18(p *core.Prog, r *core.Report) {
-	r.Explanation = "Decides structural necessary conditions of disconnect semantics: (R1) Server.handle reaches serverProtocol.Close() on every path after a successful protocol detection (the failing path closes the stream); (R2) every Close of a connection protocol is a test-and-set under its mutex that takes ownership of the will queue (copied to a local, field cleared) before the mutex is released, and drains the local copy with every queued command handed to the engine entry regardless of earlier results; (R3) will registration never executes: the registration arms push to the will queue, rewrite the command type to LOCK/UNLOCK before the push (otherwise Close would only re-register it), and call no engine function; (R4) registration uses Push (tail) and the drain uses Pop (head) of the same queue; (R5) proxies are repointed to the default protocol inside the critical section that sets closed, and AddProxy reports success only after tracking the proxy (and refuses when closed); (R6) replies are re-routed by the connection's own client id, never to the closing connection itself, and Close removes the client-id entry only if it still maps to this connection. (R7) the code that registers a will (pushes the command object onto the connection's will queue) does not return that object to the command pool on the same path. (R8) the will drain dispatches through the closing protocol object itself, and a loop repointing every tracked proxy dominates the truncation of the proxy list. NOT decided: exactly-once when a close races the drain on a follower whose leader is unreachable, leaks of queued requests, delivery after reconnect."
+	r.Explanation = "Decides structural necessary conditions of disconnect semantics: (R1) Server.handle reaches serverProtocol.Close() on every path after a successful protocol detection (the failing path closes the stream); (R2) every Close of a connection protocol is a test-and-set under its mutex that takes ownership of the will queue (copied to a local, field cleared) before the mutex is released, and drains the local copy with every queued command handed to the engine entry regardless of earlier results; (R3) will registration never executes: the registration arms push to the will queue, rewrite the command type to LOCK/UNLOCK before the push (otherwise Close would only re-register it), and call no engine function; (R4) registration uses Push (tail) and the drain uses Pop (head) of the same queue; (R5) proxies are repointed to the default protocol inside the critical section that sets closed, and AddProxy reports success only after tracking the proxy (and refuses when closed); (R6) replies are re-routed by the connection's own client id, never to the closing connection itself, and Close removes the client-id entry only if it still maps to this connection. (R7) the code that registers a will (pushes the command object onto the connection's will queue) does not return that object to the command pool on the same path. (R8) the will drain dispatches through the closing protocol object itself, and a loop repointing every tracked proxy dominates the truncation of the proxy list. (R9) the text protocol sends a reply on lockWaiter only after testing the connection not closed, so the will drain cannot block on a channel nobody reads. NOT decided: exactly-once when a close races the drain on a follower whose leader is unreachable, leaks of queued requests, delivery after reconnect."
 	r.Assumptions = []string{"Go type checker and go/ssa are correct for /repo"}
 	c18R1(p, r)
 	c18R2(p, r)
@@ -20,6 +20,7 @@ func checkC18(p *core.Prog, r *core.Report) {
 	c18R6(p, r)
 	c18R7(p, r)
 	c18R8(p, r)
+	c18R9(p, r)
 	c18R5(p, r)
 }
 
@@ -776,5 +777,73 @@ func c18R8(p *core.Prog, r *core.Report) {
 		if len(truncs) == 0 {
 			r.Fail("C18/R8 %s: truncation of the proxy list not found", name)
 		}
+	}
+}
+
+// c18R9: Close() drains the will queue in the connection's own goroutine - the
+// goroutine that otherwise reads lockWaiter. Every will it executes is
+// answered through the text protocol's reply function, which sends on
+// lockWaiter (a small buffered channel). With nobody left to read, the send
+// must not happen once the connection is closed: otherwise the drain blocks as
+// soon as the buffer is full, the remaining wills never run and Close() never
+// returns.
+func c18R9(p *core.Prog, r *core.Report) {
+	const rule = "C18/R9"
+	r.Rule(rule, "TextServerProtocol sends a reply on lockWaiter only on a path that tested the connection not closed (the wills executed by Close are answered with nobody reading the channel)", 2)
+	n := 0
+	for _, fn := range p.FuncsIn("server") {
+		if fn.Blocks == nil || p.IsNewFunc(fn) || recvName(fn) != "TextServerProtocol" {
+			continue
+		}
+		sends := false
+		for _, b := range fn.Blocks {
+			for _, ins := range b.Instrs {
+				if s, ok := ins.(*ssa.Send); ok {
+					if u, ok := s.Chan.(*ssa.UnOp); ok {
+						if fa, ok := u.X.(*ssa.FieldAddr); ok && core.FieldKeyOf(fa.X.Type(), fa.Field).Field == "lockWaiter" {
+							sends = true
+						}
+					}
+				}
+			}
+		}
+		if !sends {
+			continue
+		}
+		name := core.FuncName(fn)
+		ex := core.NewExplorer(p, core.Hooks{
+			Track: func(x *core.X, a core.Atom) bool { return strings.HasSuffix(core.Plain(a.L), ".closed") },
+			Instr: func(x *core.X) {
+				s, ok := x.Ins.(*ssa.Send)
+				if !ok {
+					return
+				}
+				ch := core.Plain(x.Canon(s.Chan).S)
+				if !strings.HasSuffix(ch, ".lockWaiter") {
+					return
+				}
+				n++
+				base := strings.TrimSuffix(ch, ".lockWaiter")
+				key := siteKey(p, x.Ins)
+				open := false
+				for h := range x.St.Hist {
+					if core.Plain(h) == base+".closed == false" {
+						open = true
+					}
+				}
+				if open {
+					r.Hold(rule, key, x.Pos(), "connection tested not closed")
+				} else {
+					r.Violate(rule, key, x.Pos(), "a reply is sent on lockWaiter without testing that the connection is still open: the wills that Close() executes are answered here with nobody reading the channel, so the drain blocks once the channel's buffer is full - the remaining wills never run and Close() never returns", x.St.Trace)
+				}
+			},
+		})
+		ex.Run(fn, nil)
+		if ex.Imprecise != "" {
+			r.Fail("C18/R9 %s: %s", name, ex.Imprecise)
+		}
+	}
+	if n == 0 {
+		r.Fail("C18/R9: no send on lockWaiter found in TextServerProtocol")
 	}
 }
